@@ -49,7 +49,18 @@ Fixpoint select (mask : list bool) (names : list N) : list N :=
       end
   end.
 
-(** addDocument's reads *)
+(** symbol metadata ids (third component of a section): 0 = the shard stores NO metadata for the section
+    (symbolData.data returns nil: Document.Symbols was given without SymbolsMetaData), [empty_meta] = metadata present
+    with Kind = Parent = ParentKind = "". addDocument (after the repair, /repo "fix: index: merging ... symbols without
+    metadata") copies a missing entry as the empty zoekt.Symbol, so that every section of the destination has an entry and
+    later documents' metadata stay aligned (ShardBuilder indexes metadata by the global section number). Before the repair
+    the nil entry was dereferenced by ShardBuilder.addSymbols: Panic. *)
+Definition empty_meta : N := 1%N.
+Definition norm_sym (s : N * N * N) : N * N * N :=
+  let '(a, e, m) := s in (a, e, if N.eqb m 0 then empty_meta else m).
+
+(** addDocument's reads (the branch walk idealised: every bit of the mask is resolved; the walk as coded, with the
+    width of its bit counter explicit, is [decode_w] below) *)
 Definition decode (sh : shard) (d : sdoc) : outcome ddoc :=
   match nth_error (sh_repos sh) (sd_repo d) with
   | None => Panic 1                                   (* d.repoMetaData[repoID] out of range *)
@@ -60,7 +71,29 @@ Definition decode (sh : shard) (d : sdoc) : outcome ddoc :=
           Ok {| dd_name := sd_name d; dd_content := sd_content d;
                 dd_branches := select (sd_mask d) (sr_branches r);
                 dd_lang := nth (sd_lang d) (sh_langs sh) 0%N;       (* map lookup: "" when missing *)
-                dd_sub := sub; dd_syms := sd_syms d; dd_cat := sd_cat d |}
+                dd_sub := sub; dd_syms := map norm_sym (sd_syms d); dd_cat := sd_cat d |}
+      end
+  end.
+
+(** ---- the branch walk as coded: `mask := d.fileBranchMasks[docID] (uint64); id := uintW(1);
+    for mask != 0 { if mask&1 != 0 { append(d.branchNames[repoID][uint(id)]) }; id <<= 1; mask >>= 1 }`.
+    branchNames has the keys 1<<j (j < 64, one per branch). With a W-bit counter `id` is 1<<i for i < W and 0 from
+    then on (no such key for a repository with <= 64 branches): bits >= W of the mask resolve to "" like a bit
+    without a branch. W was 32 (`uint32`) although a repository may have 64 branches and the mask has 64 bits; the
+    repaired code walks with a uint64. *)
+Definition select_w (w : nat) (mask : list bool) (names : list N) : list N := select mask (firstn w names).
+Definition walk_width : nat := 64.
+Definition decode_w (w : nat) (sh : shard) (d : sdoc) : outcome ddoc :=
+  match nth_error (sh_repos sh) (sd_repo d) with
+  | None => Panic 1
+  | Some r =>
+      match nth_error (sr_subs r) (sd_sub d) with
+      | None => Panic 2
+      | Some sub =>
+          Ok {| dd_name := sd_name d; dd_content := sd_content d;
+                dd_branches := select_w w (sd_mask d) (sr_branches r);
+                dd_lang := nth (sd_lang d) (sh_langs sh) 0%N;
+                dd_sub := sub; dd_syms := map norm_sym (sd_syms d); dd_cat := sd_cat d |}
       end
   end.
 
@@ -182,6 +215,70 @@ Fixpoint explode_docs (sh : shard) (docs : list sdoc) (cur : option shard) (last
   end.
 Definition explode (sh : shard) : outcome (list shard) := explode_docs sh (sh_docs sh) None None [].
 
+(** ---- merge / explode exactly as coded: the same loops over [decode_w w] (w = width of addDocument's bit counter).
+    [merge_impl] / [explode_impl] (w = walk_width = 64) are what the correspondence runner compares with the
+    implementation; Proofs/MergeDocsWidth.v proves them equal to [merge] / [explode] on well-formed shards, and that a
+    32-bit walk is NOT (C16_walk32_refuted). *)
+Fixpoint copy_docs_w (w : nat) (sh : shard) (docs : list sdoc) (b : shard) (last : option nat) : outcome shard :=
+  match docs with
+  | [] => Ok b
+  | d :: rest =>
+      match nth_error (sh_repos sh) (sd_repo d) with
+      | None => Panic 1
+      | Some r =>
+          if sr_tomb r then copy_docs_w w sh rest b last
+          else
+            do b1 <- (match last with
+                      | Some l => if Nat.eqb l (sd_repo d) then Ok b
+                                  else if (sd_repo d <? l)%nat then Err 4
+                                  else set_repo b r
+                      | None => set_repo b r
+                      end);
+            do dd <- decode_w w sh d;
+            do b2 <- add_doc b1 dd;
+            copy_docs_w w sh rest b2 (Some (sd_repo d))
+      end
+  end.
+Fixpoint merge_loop_w (w : nat) (shards : list shard) (b : shard) : outcome shard :=
+  match shards with
+  | [] => Ok b
+  | sh :: rest => do b' <- copy_docs_w w sh (sh_docs sh) b None; merge_loop_w w rest b'
+  end.
+Definition merge_w (w : nat) (shards : list shard) : outcome shard :=
+  match shards with
+  | [] => Err 5
+  | _ => merge_loop_w w (sort_prio shards) empty_builder
+  end.
+Fixpoint explode_docs_w (w : nat) (sh : shard) (docs : list sdoc) (cur : option shard) (last : option nat) (done : list shard)
+  : outcome (list shard) :=
+  match docs with
+  | [] => Ok (done ++ opt_list cur)
+  | d :: rest =>
+      match nth_error (sh_repos sh) (sd_repo d) with
+      | None => Panic 1
+      | Some r =>
+          if sr_tomb r then explode_docs_w w sh rest cur last done
+          else
+            let same := match last with Some l => Nat.eqb l (sd_repo d) | None => false end in
+            let bad := match last with Some l => (sd_repo d <? l)%nat | None => false end in
+            if same then
+              match cur with
+              | None => Panic 4
+              | Some b =>
+                  do dd <- decode_w w sh d; do b2 <- add_doc b dd;
+                  explode_docs_w w sh rest (Some b2) (Some (sd_repo d)) done
+              end
+            else if bad then Err 4
+            else
+              do b1 <- set_repo empty_builder r;
+              do dd <- decode_w w sh d; do b2 <- add_doc b1 dd;
+              explode_docs_w w sh rest (Some b2) (Some (sd_repo d)) (done ++ opt_list cur)
+      end
+  end.
+Definition explode_w (w : nat) (sh : shard) : outcome (list shard) := explode_docs_w w sh (sh_docs sh) None None [].
+Definition merge_impl : list shard -> outcome shard := merge_w walk_width.
+Definition explode_impl : shard -> outcome (list shard) := explode_w walk_width.
+
 (** ---- what a search / List can see of a shard: per document of a live repo, the repo id and the decoded
     document (name, content, branches, language, sub-repo path, symbols, category) *)
 Definition view_doc (sh : shard) (d : sdoc) : list (N * ddoc) :=
@@ -253,7 +350,7 @@ Definition c16_ok_out (c : c16case) : bool :=
   let '(mode, inputs, failed, outs) := c in
   match mode with
   | 0%N =>
-      match merge inputs, outs with
+      match merge_impl inputs, outs with
       | Ok b, [o] => negb failed && oshard_ok b o
       | Err _, _ => failed
       | _, _ => false
@@ -261,7 +358,7 @@ Definition c16_ok_out (c : c16case) : bool :=
   | _ =>
       match inputs with
       | [sh] =>
-          match explode sh with
+          match explode_impl sh with
           | Ok bs => negb failed && Nat.eqb (length bs) (length outs) &&
                      forallb (fun p => oshard_ok (fst p) (snd p)) (combine bs outs)
           | Err _ => failed
